@@ -39,6 +39,7 @@ class Gen:
         self.injected = set()
         self.rec_done = {}       # rec consumer -> inner nodes of its subgraph
         self.dec_after_rec = set()
+        self.unnamed_deciders = set()
         self.last_sub = []
 
     def new_node(self, **kw):
@@ -197,7 +198,12 @@ class Gen:
             self.finish(dn)
             visible.append(decider)
         self.sw += 1
-        name = None if rng.random() < self.p.get('p_unnamed_switch', 0.3) else f'sw{self.sw}'
+        p_un = self.p.get('p_unnamed_switch', 0.3)
+        if decider in self.unnamed_deciders:
+            p_un = 0.8          # several unnamed SwitchCase marks on one switch node
+        name = None if rng.random() < p_un else f'sw{self.sw}'
+        if name is None:
+            self.unnamed_deciders.add(decider)
         return ['sw', name, decider, cases]
 
     def make_oneof(self, visible, depth, in_rec, in_cand):
